@@ -91,6 +91,13 @@ def handle (inp out : String) : String :=
       | some why => s!"specfail {cls} {why}"
       | none => if ms == out then s!"ok {cls}" else s!"diff {cls} model={ms}"
     | _, _ => "skip bad-tcp-args"
+  | ["baddr", hostHex, port] =>
+    -- the resolver is asked for exactly the configured host and the port in decimal
+    let ms := s!"0 {hostHex} {toHex (toString (port.toNat?.getD 0)).toUTF8.toList}"
+    let spec : Option String := match words out with
+      | [_, nd, sv] => if nd != hostHex || sv != toHex (toString (port.toNat?.getD 0)).toUTF8.toList then some s!"connects-to-{nd}:{sv}-instead-of-the-configured-endpoint" else none
+      | _ => none
+    (match spec with | some why => s!"specfail baddr {why}" | none => if ms == out then s!"ok baddr:{port.length}-digits" else s!"diff baddr model={ms}")
   | ["btcp", reqHex, sends, streamHex, recvs, conn] =>
     match ofHex reqHex, ofHex streamHex with
     | some req, some stream =>
